@@ -336,3 +336,9 @@ Proof. vm_compute. reflexivity. Qed.
    plus interior faces shared by two children *)
 Lemma tet_trace3_ok : forallb (fun c => trace3_ok gen_tet_rfacets gen_tet_redges (tet_family c)) [0; 1; 2] = true.
 Proof. vm_compute. reflexivity. Qed.
+
+(* ------------------------------------------------------------------ hexahedra: faces *)
+Lemma hex_qface_edges_ok : qface_edges_okb 8 gen_hex_rfacets gen_hex_redges = true.
+Proof. vm_compute. reflexivity. Qed.
+Lemma hex_trace4_ok : trace4_ok gen_hex_rfacets gen_hex_redges gen_hex_templates = true.
+Proof. vm_compute. reflexivity. Qed.
